@@ -289,6 +289,95 @@ def part2(res, flat_len):
                         for p in pubs:
                             p.close()
     res.sample(dict(part=2, type="int", owner="components", history=[["py", 0, 7], ["nt", 1, -3], ["nt", 0, 100]], expected_reads={"left": 100, "right": -3}))
+    part2_sparse_reads(res, flat_len)
+    part2_late_sibling(res)
+
+
+def part2_sparse_reads(res, flat_len):
+    """Reads are operations of their own here (the closed exploration above reads everything after every write, which
+    could mask a defect that depends on *not* reading in between): every sequence of the stated length over
+    {python write v1/v2, NT write v1/v2, python read, NT read, python write to the sibling instance}."""
+    tt = type_table()
+    inst = env.nt()
+    depth = 5 if flat_len <= 2 else 6
+    for tname in ("int", "str", "floats"):
+        _src, default, alpha, ts = tt[tname]
+        v1, v2 = alpha[1], alpha[2]
+        ops = [("pyw", 0, v1), ("pyw", 0, v2), ("ntw", 0, v1), ("ntw", 0, v2), ("pyr", 0, None), ("ntr", 0, None), ("pyw", 1, v1)]
+        for seq in itertools.product(range(len(ops)), repeat=depth):
+            env.advance_us(10)
+            cls, _ = build_class(tname)
+            objs = [cls(), cls()]
+            names = [env.fresh_name("sl"), env.fresh_name("sr")]
+            for o, nm in zip(objs, names):
+                setup(o, "components", nm)
+            pubs = [publish(typed_topic(inst, expected_key("components", nm, None, "val"), tname), tname) for nm in names]
+            subs = [subscribe(typed_topic(inst, expected_key("components", nm, None, "val"), tname), tname, default) for nm in names]
+            model = [norm(default), norm(default)]
+            hist = []
+            res.executions += 1
+            res.transitions += depth
+            for oi in list(seq) + [4, 5]:  # always finish with both reads of instance 0
+                kind, i, v = ops[oi]
+                env.advance_us(1)
+                hist.append((kind, i, repr(v) if v is not None else None))
+                if kind == "pyw":
+                    objs[i].val = v
+                    model[i] = norm(v)
+                elif kind == "ntw":
+                    pubs[i].set(v)
+                    model[i] = norm(v)
+                else:
+                    got = norm(objs[i].val) if kind == "pyr" else norm(subs[i].get())
+                    res.checks += 1
+                    if got != model[i]:
+                        res.violation(f"stale-or-lost-write:{'python-read' if kind == 'pyr' else 'nt-read'}:sparse-reads", f"{tname}: after {hist} the {'attribute' if kind == 'pyr' else 'NT subscriber'} reads {got!r}, latest write {model[i]!r}", dict(engine="nt", part=2, type=tname, owner="components", history=[list(h) for h in hist]))
+                        break
+            for x in subs + pubs:
+                x.close()
+    res.bounds["part2_sparse_read_sequence_length"] = depth
+
+
+def part2_late_sibling(res):
+    """A second instance of a class is set up after the first one was already used (assigned from python / from NT)."""
+    tt = type_table()
+    inst = env.nt()
+    for tname in ("int", "str", "bools", "struct"):
+        _src, default, alpha, ts = tt[tname]
+        for wd, used, pre in itertools.product((True, False), ("none", "py", "nt", "py+read"), (False, True)):
+            env.advance_us(10)
+            cls, _ = build_class(tname, wd=wd)
+            a = cls()
+            n1, n2 = env.fresh_name("fa"), env.fresh_name("fb")
+            setup(a, "components", n1)
+            pub1 = publish(typed_topic(inst, expected_key("components", n1, None, "val"), tname), tname)
+            env.advance_us(5)
+            if used in ("py", "py+read"):
+                a.val = alpha[2]
+                if used == "py+read":
+                    _ = a.val
+            elif used == "nt":
+                pub1.set(alpha[2])
+            prepub = None
+            if pre:
+                prepub = publish(typed_topic(inst, expected_key("components", n2, None, "val"), tname), tname)
+                env.advance_us(5)
+                prepub.set(alpha[1])
+            env.advance_us(5)
+            b = cls()
+            setup(b, "components", n2)
+            exp = default if (wd or not pre) else alpha[1]
+            got = b.val
+            res.executions += 1
+            res.checks += 1
+            if norm(got) != norm(exp):
+                res.violation(f"setup-value:late-sibling:writeDefault={wd}:pre={pre}", f"{tname}: first instance used ({used}), then a second instance of the same class set up under another name with writeDefault={wd}, pre-existing={pre}: reads {got!r}, expected {exp!r}", dict(engine="nt", part=2, type=tname, owner="components", history=[["late-sibling", used, wd, pre]]))
+            exp_a = {"none": default, "py": alpha[2], "py+read": alpha[2], "nt": alpha[2]}[used]
+            if norm(a.val) != norm(exp_a):
+                res.violation("shared-between-instances:late-sibling", f"{tname}: setting up a second instance changed the first one's value to {a.val!r} (expected {exp_a!r})", dict(engine="nt", part=2, type=tname, owner="components", history=[["late-sibling", used, wd, pre]]))
+            pub1.close()
+            if prepub is not None:
+                prepub.close()
 
 
 # ------------------------------------------------------------------------------------------ part 3: through MagicRobot
